@@ -33,7 +33,17 @@ RULE = ("(a) in-process: 2-3 tasks per terminal run sdo_read, expedited "
         "terminal for two terminals, perform m locked "
         "exchanges per terminal on one lock file with random sleeps and, in most rounds, "
         "injected delays before and after every pread/pwrite/lockf of the "
-        "lock protocol, appending to a shared log. History checker: no other user's request between a "
+        "lock protocol, appending to a shared log; in half of the rounds each: "
+        "a task receives pickled copies of the lock file, uses them for a "
+        "third terminal and drops them while the others are inside their "
+        "exchanges; the process is connected to two loops (two "
+        "ParallelEtherCat objects with their own lock files, locks obtained "
+        "from get_mbx_lock) which both have a terminal 1042; a task's "
+        "attempts are cancelled after 0..200 loop iterations (waiting for a "
+        "task of its own process, for another process, or inside the "
+        "exchange). The workers run on the virtual loop, which ends a "
+        "process all of whose tasks wait for ever with a deadlock verdict. "
+        "History checker: no other user's request between a "
         "request and the read of its response, counter chain 1..7 with no "
         "repeat or gap (only the very first may be 0), late opener gets a "
         "valid counter. a case = one history; non-trivial = >= 2 users "
